@@ -359,6 +359,11 @@ def run(chk):
                                     "every entry is evalRaw<rule>(max_order, column, node of the row) or the literal one where that function is one (obligations of C01-D5)")
     nv4 = vander.van_rule(chk, db, "C04-D12.vandermonde")
     chk.floor("C04-D12.vandermonde", nv4, 30, "paired appends in van_matrix")
+    from rules import kinds
+    chk.rule("C04-D13.kinds", "integrate() multiplies like with like in every grid class: quadrature weights with the values stored at the nodes, integrals of the basis functions with the hierarchical "
+                              "coefficients (kind inference over the locals of the five integrate() routines; obligations shared with C10-D8)")
+    nk4 = kinds.kinds_rule(chk, db, "C04-D13.kinds")
+    chk.floor("C04-D13.kinds", nk4, 8, "products accumulated by the integrate() routines of the grid classes")
     # integrate(), sum of quadrature weights times values, and coefficients times integrateHierarchicalFunctions() are documented to agree
     from rules import routing
     nrt = routing.routing_rule(chk, db, "C04-D10.integrals", only=("integral",))
